@@ -148,14 +148,14 @@ impl CompactEncoding for Entry {
             (Default::default(), rest)
         };
 
-        let (tree_upgrade, rest) = if flags & 2 != 0 {
+        let (tree_upgrade, rest) = if flags & 4 != 0 {
             let (x, rest) = EntryTreeUpgrade::decode(rest)?;
             (Some(x), rest)
         } else {
             (Default::default(), rest)
         };
 
-        let (bitfield, rest) = if flags & 2 != 0 {
+        let (bitfield, rest) = if flags & 8 != 0 {
             let (x, rest) = BitfieldUpdate::decode(rest)?;
             (Some(x), rest)
         } else {
